@@ -149,6 +149,10 @@ def check(ctx: Ctx) -> None:
                 ctx.violation('C16.a', c.name, '%s inherits the NotImplemented stub of %s' % (c.name, meth),
                               c.module.path, c.node.lineno, operand=meth)
     _check_scale(ctx, ser_terms)
+    _check_overrides(ctx, ser_terms)
+    from ..idioms import check_input_immutability, public_api
+    fns = [f for f in public_api(ctx.model, [FUND]) if 'Theoretical' in f.name] + public_api(ctx.model, [MISC], include={'qfunc'})
+    check_input_immutability(ctx, 'C16.d', fns, floor=8)
 def _db_once(t: T.Term) -> Tuple[bool, str]:
     n_conv = 0
     bare = 0
@@ -283,6 +287,51 @@ def _check_scale(ctx: Ctx, ser_terms: Dict[str, T.Term]) -> None:
     if not ok:
         ctx.violation('C16.b', 'BPSK', 'the BPSK error-rate formula uses `%s` but the emitted table is +-%s, i.e. '
                       'sqrt(2 snr) d = `%s`' % (arg.pretty(), d, want.pretty()), FUND, bi.lineno, operand='scale')
+
+
+def _check_overrides(ctx: Ctx, reference: Dict[str, T.Term]) -> None:
+    """C16.b for every OTHER concrete class: a subclass that brings its own SER formula must still use the scale of the
+    constellation it emits (its family's generator, with the cardinality its constructor fixes)."""
+    M = ctx.model
+    base = M.cls('Modulator')
+    fam = {'PSK': 'PSK.calcTheoreticalSER', 'BPSK': 'BPSK.calcTheoreticalSER', 'QAM': 'QAM._calcTheoreticalSingleCarrierErrorRate'}
+    covered = {M.func(FUND, q.replace('._calcTheoreticalSingleCarrierErrorRate', '.calcTheoreticalSER')).qualname for q in fam.values()}
+    snr = T.Term.atom(('call', 'dB2Linear', (T.Term.sym('SNR').key(),)))
+    for c in M.subclasses(base):
+        f = M.lookup_method(c, 'calcTheoreticalSER')
+        if f is None or f.qualname in covered:
+            continue
+        construct = '%s:scale' % c.name
+        ctx.instance('C16.b', construct)
+        roots = [k.name for k in M.mro(c) if k.name in fam]
+        if not roots:
+            ctx.error('C16.b: %s brings its own SER formula and belongs to no known constellation family (cannot tell)' % c.name)
+        root = roots[0]
+        # literal cardinality fixed by the constructor: super().__init__(M, ...)
+        mval = None
+        init = c.methods.get('__init__')
+        if init is not None:
+            for n in ast.walk(init.node):
+                if isinstance(n, ast.Call) and norm(n.func) in ('super().__init__', root + '.__init__') and n.args:
+                    a0 = n.args[1] if norm(n.func) != 'super().__init__' and len(n.args) > 1 else n.args[0]
+                    if isinstance(a0, ast.Constant) and isinstance(a0.value, int):
+                        mval = a0.value
+        want_arg = _qfunc_arg(reference[fam[root]])
+        got_arg = _qfunc_arg(_one(ctx, f))
+        if want_arg is None or got_arg is None:
+            ctx.error('C16.b: cannot extract the Q-function argument of %s / its family %s (cannot tell)' % (f.qualname, root))
+        if mval is not None:
+            want_arg = T.substitute(want_arg, {'self._M': T.Term.const(mval)})
+            got_arg = T.substitute(got_arg, {'self._M': T.Term.const(mval)})
+        two = T.Term.const(2)
+        # both arguments are positive: compare their squares (radicals of products are not distributed by the normaliser)
+        ok = got_arg == want_arg or T.rat_equal(T.t_pow(got_arg, two), T.t_pow(want_arg, two))
+        ctx.obligation('C16.b', construct, ok, {'own_formula_in': f.qualname, 'qfunc_arg': got_arg.pretty(), 'family_scale': want_arg.pretty(),
+                                                'cardinality': mval})
+        if not ok:
+            ctx.violation('C16.b', f.qualname, '%s overrides the SER curve with Q-function argument `%s`, but the constellation it emits (family %s%s) '
+                          'has the scale `%s`' % (c.name, got_arg.pretty(), root, ', M=%s' % mval if mval else '', want_arg.pretty()),
+                          f.path, f.lineno, operand='scale:' + c.name)
 
 
 def synthetic():
